@@ -282,7 +282,7 @@ func runC17(r *mon.Run) {
 			r.Violate("negctl", mon.Case{Gen: "negctl"}, "accepted (expected)")
 		}
 	})
-	n := r.Pick(12, 500)
+	n := r.Pick(12, 3000)
 	mon.Parallel(n, func(i int) { c17Batch(r, i) })
 	r.Sample(map[string]interface{}{"maps": []string{fmt.Sprintf("%q", randTagMap(r.Rand("C17/maps", 0))), `{"a": "` + "`" + `", "b": "\"\n\\"}`}})
 }
